@@ -53,8 +53,8 @@ def canonical(f, v):
         if "longlba" in v:
             v["longlba"] = 0
     if f.name == "inquiry.standard":
-        v["_total"] = 96
-        v["additional_length"] = 91
+        # any legal ADDITIONAL LENGTH; the canonical response is what a 96-byte allocation holds afterwards (see pad())
+        pass
     if f.name == "readelementstatus":
         for p in v["element_status_pages"]:
             p["_tail"] = 4
@@ -148,6 +148,11 @@ def run(shard, ctx):
     for mode in modes(f, shard):
         v = canonical(f, f.gen(rng, mode))
         b = f.encode(v)
+        if f.name == "inquiry.standard":
+            # the builder always produces the full 96-byte standard INQUIRY buffer: a shorter response is canonical as the
+            # zero-initialised 96-byte allocation it was received into
+            b = bytes(b) + bytes(96 - len(b))
+            ctx.add("inquiry_lengths", v["_total"])
         nt = gen.nonzero(D.strip_private(f.expect(v)))
         wit = {"format": f.name, "mode": mode, "value": D.strip_private(v), "canonical": bytes(b)}
         # (1) parser vocabulary -> build -> parse
